@@ -24,6 +24,7 @@ RULE = ("(a) exhaustive: every condition tree with <= N connective nodes (and/or
         "instances exist in the process, results consumed while the consumer is inside a symbolic block, conditions whose "
         "user method constructs a @symbol object; (e) very wide and very deep conditions (and_/or_ with 8-30 operands, 6-14 nested negations, right-deep chains of 8-16 alternating connectives); (f) histories: 1-3 evaluations of the same query, an earlier evaluation left after a few results (closed, or kept alive), an earlier complete evaluation under the other caching switch. A case is non-trivial when the oracle result is neither empty nor the "
         "whole domain; distinct = distinct (condition, data, spelling) by structural hash.")
+RULE += " Size cases (every tier): domains of 80-300 objects under two-operand conditions (also negated, also with a 66-80 element membership container), evaluated three times; one domain of 1300-1450 objects per four shards."
 LEVEL_TEXT = ("Reference-model monitoring at the API boundary: the real query is built and evaluated, its result list is "
               "compared by identity and order with a plain-Python filter of the same domain. All condition trees up to "
               "a size bound over a 6-leaf alphabet are enumerated completely on a truth-table-complete domain; beyond "
